@@ -64,6 +64,11 @@ pub struct SchedStats {
     /// scheduling points that came from sync primitives / atomics (facade build only)
     #[serde(default)]
     pub sync_points: u64,
+    /// readings of the simulated clock, and simulated time covered (facade build only)
+    #[serde(default)]
+    pub clock_reads: u64,
+    #[serde(default)]
+    pub simulated_ns: u64,
     /// site -> [hit, switched here, crashed here]
     pub sites: BTreeMap<String, [u64; 3]>,
 }
@@ -77,6 +82,8 @@ impl SchedStats {
         self.crashes += o.crashes;
         self.blocked_yields += o.blocked_yields;
         self.sync_points += o.sync_points;
+        self.clock_reads += o.clock_reads;
+        self.simulated_ns = self.simulated_ns.saturating_add(o.simulated_ns);
         for (k, v) in &o.sites {
             let e = self.sites.entry(k.clone()).or_insert([0; 3]);
             for i in 0..3 {
@@ -99,6 +106,9 @@ pub struct State {
     site_ids: BTreeMap<&'static str, u64>,
     /// consecutive blocked yields with no task making progress in between
     blocked_streak: u64,
+    /// simulated nanoseconds since the episode began; only moves when somebody reads the clock
+    sim_clock_ns: u64,
+    pub clock_reads: u64,
     /// set when every runnable task is blocked on another: (site, streak)
     pub deadlock: Option<String>,
 }
@@ -149,6 +159,8 @@ impl Sim {
                 stats: SchedStats::default(),
                 site_ids: BTreeMap::new(),
                 blocked_streak: 0,
+                sim_clock_ns: 0,
+                clock_reads: 0,
                 deadlock: None,
             }),
             cvs: (0..n_tasks).map(|_| Condvar::new()).collect(),
@@ -201,7 +213,10 @@ impl Sim {
 
     pub fn snapshot(&self) -> (Vec<u8>, u64, SchedStats) {
         let st = self.lock();
-        (st.decisions.clone(), st.trace, st.stats.clone())
+        let mut stats = st.stats.clone();
+        stats.clock_reads = st.clock_reads;
+        stats.simulated_ns = st.sim_clock_ns;
+        (st.decisions.clone(), st.trace, stats)
     }
 
     fn wait_for_baton<'a>(&'a self, mut st: MutexGuard<'a, State>, id: usize) -> MutexGuard<'a, State> {
@@ -428,6 +443,28 @@ pub fn hook(site: &'static str) {
     sim.yield_point(id, site);
 }
 
+/// The simulated clock (facade build only). Time moves only when it is read: every reading
+/// first jumps forward by a seeded amount — usually microseconds, sometimes milliseconds,
+/// seconds, hours or days — so timeouts, time-to-live caches and timestamps meet in a few
+/// milliseconds of real time what a deployment meets in months. `sleep_ns` > 0 adds a sleep.
+pub fn clock_hook(sleep_ns: u64) -> Option<u64> {
+    let info = CUR.with(|c| c.borrow().as_ref().map(|t| (t.sim.clone(), t.id)));
+    let (sim, _id) = info?;
+    let mut st = sim.lock();
+    st.clock_reads += 1;
+    let jump = match st.rng.weighted(&[50, 20, 12, 8, 6, 4]) {
+        0 => st.rng.range(1, 5_000),                                   // < 5 us
+        1 => st.rng.range(5_000, 5_000_000),                           // < 5 ms
+        2 => st.rng.range(5_000_000, 2_000_000_000),                   // < 2 s
+        3 => st.rng.range(2_000_000_000, 3_600_000_000_000),           // < 1 h
+        4 => st.rng.range(3_600_000_000_000, 86_400_000_000_000),      // < 1 day
+        _ => st.rng.range(86_400_000_000_000, 40 * 86_400_000_000_000), // < 40 days
+    };
+    st.sim_clock_ns = st.sim_clock_ns.saturating_add(jump).saturating_add(sleep_ns);
+    st.trace = fold(st.trace, 0xC10C ^ st.sim_clock_ns);
+    Some(st.sim_clock_ns)
+}
+
 /// Hook installed into the std/core facades (facade build only): a scheduling point at
 /// every sync-primitive or atomic access; `blocked` = the caller must wait for another task.
 pub fn sync_hook(site: &'static str, blocked: bool) -> bool {
@@ -449,7 +486,10 @@ pub fn sync_hook(site: &'static str, blocked: bool) -> bool {
 
 pub fn install_hook() {
     #[cfg(feature = "facade")]
-    fqcore::__fqsim::install(sync_hook);
+    {
+        fqcore::__fqsim::install(sync_hook);
+        fqcore::__fqsim::install_clock(clock_hook);
+    }
     // false only if already installed by this process, which is fine
     let _ = fast_qr::verif_hooks::install(hook);
 }
